@@ -125,8 +125,20 @@ def _sig_sticky_escapes(case: dict, f: Failure) -> bool:
     direct = opts.fmt(case["text"], o2)
     via = opts.fmt(first, o2)
     esc = re.compile(r"\\(?=[-=*_`~>#+.)\[|:\\])")
-    escaped = re.compile(r"\\([-=*_`~>#+.)\[|:\\])")  # the characters that carry a protecting backslash, in order
-    if escaped.findall(via) == escaped.findall(direct):
+    def escape_positions(t: str) -> list[int]:
+        # where the protecting backslashes stand, counted in the text without blanks, quote markers and escapes
+        out, n, body = [], 0, "".join(t.replace(">", "").split())
+        k = 0
+        while k < len(body):
+            if esc.match(body, k):
+                out.append(n)
+                k += 1
+                continue
+            n += 1
+            k += 1
+        return out
+
+    if escape_positions(via) == escape_positions(direct):
         return False  # the same protecting backslashes in both: the difference is not one of escapes
 
     def norm(t: str) -> str:
